@@ -311,6 +311,10 @@ pub struct ProcInfo {
     pub state: String,
     pub unreaped: bool,
     pub task_done: bool,
+    /// diagnostic only (not part of any digest): descriptors of a process that
+    /// is still running, as `fd:ofd-serial[n=non-blocking][fifo content length]`
+    #[serde(default)]
+    pub fds: String,
 }
 
 #[derive(Clone, Debug, Default, Serialize, Deserialize)]
@@ -586,6 +590,30 @@ impl Sim {
                 state: state_name(p.state()),
                 unreaped: p.state_has_changed(),
                 task_done: self.task_done(*pid),
+                fds: if matches!(p.state(), yash_env::job::ProcessState::Running) {
+                    p.fds()
+                        .iter()
+                        .map(|(fd, b)| {
+                            let o = b.open_file_description.borrow();
+                            let fifo = match &o.inode().borrow().body {
+                                yash_env::system::r#virtual::FileBody::Fifo { content, .. } => {
+                                    format!("[fifo {}]", content.len())
+                                }
+                                _ => String::new(),
+                            };
+                            format!(
+                                "{}:#{}{}{}",
+                                fd.0,
+                                o.serial(),
+                                if o.is_nonblocking() { "n" } else { "" },
+                                fifo
+                            )
+                        })
+                        .collect::<Vec<_>>()
+                        .join(" ")
+                } else {
+                    String::new()
+                },
             })
             .collect()
     }
